@@ -44,7 +44,13 @@ class Oracle:
     def __init__(self, src: str, mode: str = 'exec'):
         self.src = src
         self.mode = mode
-        self.tree = ast.parse(src, mode=mode)
+        if mode == 'min':   # FST(src) without a mode: the minimal node (a lone expression / a lone statement)
+            t = ast.parse(src)
+            if len(t.body) == 1:
+                t = t.body[0].value if isinstance(t.body[0], ast.Expr) else t.body[0]
+            self.tree = t
+        else:
+            self.tree = ast.parse(src, mode=mode)
         self.lines = src.split('\n')
         self.objs = [None]  # 1-based
         self.kind = []
@@ -193,6 +199,21 @@ Oracle._anchors = _anchors_by_path
 # the recorder proper
 
 ONS = ('enter', 'leave', 'both')
+RAISED = -2   # the call raised (no clause of WalkTrace.tla accepts it)
+
+
+def _safe(fn, *a, **k):
+    try:
+        return fn(*a, **k)
+    except Exception:  # noqa: BLE001
+        return _Raised
+
+
+class _RaisedT:
+    a = None
+
+
+_Raised = _RaisedT()
 
 
 class Live:
@@ -222,6 +243,8 @@ class Live:
     def nid(self, f) -> int:
         if f is None or f is False:
             return 0
+        if f is _Raised:
+            return RAISED
         a = getattr(f, 'a', None)
         if a is None:
             return -1
@@ -258,7 +281,7 @@ def record(src: str, mode: str, pseed: int, tid: int, heavy_cap: int = 400) -> d
 
     rng = random.Random(pseed)
     o = Oracle(src, mode)
-    froot = FST(src, mode)
+    froot = FST(src) if mode == 'min' else FST(src, mode)
     lv = Live(o, froot.a)
     N = o.n
     nid = lv.nid
@@ -275,19 +298,134 @@ def record(src: str, mode: str, pseed: int, tid: int, heavy_cap: int = 400) -> d
     def do_walk(x, on, back, rec, self_, flt, full=False):
         f = lv.fst(x)
         seq, lvs = [], []
-        for y in f.walk(_flt_arg(flt, rng), on, self_=self_, recurse=rec, back=back):
-            if on == 'both':
-                seq.append(nid(y[0]))
-                lvs.append(bool(y[1]))
-            else:
-                seq.append(nid(y))
+        try:
+            for y in f.walk(_flt_arg(flt, rng), on, self_=self_, recurse=rec, back=back):
+                if on == 'both':
+                    seq.append(nid(y[0]))
+                    lvs.append(bool(y[1]))
+                else:
+                    seq.append(nid(y))
+        except Exception:  # noqa: BLE001 - a traversal call that raises on a valid tree is an observation, not a crash
+            seq.append(RAISED)
+            lvs.append(False)
         items.append({'call': 'walk', 'x': x, 'on': on, 'back': back, 'rec': rec, 'self': self_, 'flt': _pub(flt),
                       'seq': seq, 'lv': lvs, 'full': full})
 
     # shape of the live tree against the independent parse
     items.append({'call': 'shape', 'lk': lv.lk})
     if 'None' in lv.lk or 'DUP' in lv.lk:
-        return dict(o.table(), id=tid, items=items, src=src, mode=mode, pseed=pseed)
+        return dict(o.table(), id=tid, items=items)
+
+    # (1) walks from the root: every parameter combination x every filter kind
+    for flt in FLTS:
+        for on in ONS:
+            for back in (False, True):
+                for rec in (True, False):
+                    for self_ in (True, False):
+                        do_walk(1, on, back, rec, self_, flt, full=(flt['k'] == 'T' and rec and self_))
+
+    # (2) walks from every inner node (sampled above heavy_cap): all six orders unfiltered + random combinations
+    inner = list(range(2, N + 1))
+    if len(inner) > heavy_cap:
+        inner = sorted(rng.sample(inner, heavy_cap))
+    for x in inner:
+        for on in ONS:
+            for back in (False, True):
+                do_walk(x, on, back, True, True, FLTS[0], full=(N <= heavy_cap))
+        for _ in range(3):
+            do_walk(x, rng.choice(ONS), rng.random() < .5, rng.random() < .6, rng.random() < .6, rng.choice(FLTS))
+
+    # (3) navigation: every node x filter  (a call that raises is recorded as RAISED)
+    def W(f, *a, **k):
+        try:
+            return [nid(y) for y in f.walk(*a, **k)]
+        except Exception:  # noqa: BLE001
+            return [RAISED]
+
+    def C(fn, *a, **k):
+        return nid(_safe(fn, *a, **k))
+
+    def iterate(step, start):
+        s, c = [], start
+        while True:
+            c = _safe(step, c)
+            if c is None:
+                break
+            s.append(nid(c))
+            if c is _Raised or len(s) > N:
+                break
+        return s
+
+    rng_all = range(1, N + 1)
+    for flt in FLTS[:5]:
+        arg = _flt_arg(flt, rng)
+        fs = [None] + [lv.fst(x) for x in rng_all]
+        it = {'call': 'nav', 'flt': _pub(flt)}
+        it['w'] = W(froot, arg)
+        it['wb'] = W(froot, arg, back=True)
+        it['next'] = [C(fs[x].next, arg) for x in rng_all]
+        it['prev'] = [C(fs[x].prev, arg) for x in rng_all]
+        it['first'] = [C(fs[x].first_child, arg) for x in rng_all]
+        it['last'] = [C(fs[x].last_child, arg) for x in rng_all]
+        it['nchild'] = [iterate(lambda c, f=fs[x]: f.next_child(c, arg), None) for x in rng_all]
+        it['pchild'] = [iterate(lambda c, f=fs[x]: f.prev_child(c, arg), None) for x in rng_all]
+        it['cw'] = [W(fs[x], arg, self_=False, recurse=False) for x in rng_all]
+        it['cwb'] = [W(fs[x], arg, self_=False, recurse=False, back=True) for x in rng_all]
+        it['nc1'] = [0] + [C(fs[o.par[x - 1]].next_child, fs[x], arg) for x in range(2, N + 1)]
+        it['pc1'] = [0] + [C(fs[o.par[x - 1]].prev_child, fs[x], arg) for x in range(2, N + 1)]
+        it['sf'] = [C(fs[x].step_fwd, arg) for x in rng_all]
+        it['sfn'] = [C(fs[x].step_fwd, arg, False) for x in rng_all]
+        it['sb'] = [C(fs[x].step_back, arg) for x in rng_all]
+        it['sbn'] = [C(fs[x].step_back, arg, False) for x in rng_all]
+        tops = []
+        for x in (inner if len(inner) <= 60 else sorted(rng.sample(inner, 60))) + [1]:
+            f = fs[x]
+            tops.append({'x': x,
+                         'it': iterate(lambda c, f=f: c.step_fwd(arg, top=f), f),
+                         'itb': iterate(lambda c, f=f: c.step_back(arg, top=f), f),
+                         'wx': W(f, arg, self_=False), 'wxb': W(f, arg, self_=False, back=True)})
+        it['tops'] = tops
+        items.append(it)
+
+    # (4) paths
+    from fst.common import astfield  # constructor of path elements (public type of child_path's result)
+    fs = [None] + [lv.fst(x) for x in rng_all]
+    it = {'call': 'path', 'paths': [], 'strs': [], 'back': [], 'backs': [], 'beyond': [], 'rel': []}
+
+    def pub_path(p):
+        if p is _Raised:
+            return [{'f': '!raised', 'i': -1}]
+        return [{'f': af.name, 'i': -1 if af.idx is None else af.idx} for af in p]
+
+    for x in rng_all:
+        p = _safe(froot.child_path, fs[x])
+        it['paths'].append(pub_path(p))
+        it['back'].append(RAISED if p is _Raised else C(froot.child_from_path, p))
+        s_ = _safe(froot.child_path, fs[x], as_str=True)
+        it['strs'].append('!raised' if s_ is _Raised else s_ if s_.isascii() else '!nonascii')
+        it['backs'].append(RAISED if s_ is _Raised else C(froot.child_from_path, s_))
+    for x in rng_all:
+        # a path that denotes no node: one index past the end of every list field
+        a = o.objs[x]
+        for name in a._fields:
+            v = getattr(a, name, None)
+            if isinstance(v, list) and (not v or isinstance(v[0], AST)) and rng.random() < .5:
+                p = _safe(froot.child_path, fs[x])
+                if p is _Raised:
+                    continue
+                it['beyond'].append({'p': it['paths'][x - 1] + [{'f': name, 'i': len(v)}],
+                                     'r': C(froot.child_from_path, p + [astfield(name, len(v))])})
+        # relative paths from an ancestor
+        anc, d = o.par[x - 1], 0
+        while anc and d < 2:
+            if rng.random() < .5:
+                p = _safe(fs[anc].child_path, fs[x])
+                it['rel'].append({'a': anc, 'x': x, 'p': pub_path(p),
+                                  'b': RAISED if p is _Raised else C(fs[anc].child_from_path, p)})
+            anc, d = o.par[anc - 1], d + 1
+    items.append(it)
+
+    return dict(o.table(), id=tid, items=items)
 
     # (1) walks from the root: every parameter combination x every filter kind
     for flt in FLTS:
@@ -385,4 +523,4 @@ def record(src: str, mode: str, pseed: int, tid: int, heavy_cap: int = 400) -> d
             anc, d = o.par[anc - 1], d + 1
     items.append(it)
 
-    return dict(o.table(), id=tid, items=items, src=src, mode=mode, pseed=pseed)
+    return dict(o.table(), id=tid, items=items)
